@@ -8,7 +8,7 @@ BASE = ("cd /repo && env -u EDZED_VERIF /venv/bin/python -m pytest -ra -q -p no:
 MC = 'model_checking'
 CHECKS = {
  # id: (category, technique, text, note, design_ref)
- 'C20': (MC, 'TLC exhaustive state graph of Counter.tla + one implementation test per transition + batch trace validation',
+ 'C20': (MC, 'TLC exhaustive state graph of Counter.tla + one implementation test per transition + batch trace validation (integers up to 2^90 as base-2^15 digits)',
          'Counter.tla is model-checked exhaustively (all modulo values of the property, InRange, ReturnIsOutput, '
          'PutMissingHarmless); every transition of that state graph and seeded random long sequences are executed '
          'on the real Counter and each recorded step must be the corresponding spec action (TLC trace validation). '
@@ -39,9 +39,9 @@ CHECKS.update({
          'acyclic ones; random cyclic networks, event-feedback loops and reconvergent DAGs run on the real simulator; the monitor bounds the '
          'evaluations per burst, forbids "unstable" for networks with few paths and demands consistency at every idle point; a hanging execution is a violation.',
          TRUSTED, '6 C10'),
- 'C11': (MC, 'TLC model checking of Guard.tla (all event graphs of 3 nodes) + sharpness self-test + batch trace validation of enter/leave records',
+ 'C11': (MC, 'TLC model checking of Guard.tla (all event graphs of 3 nodes; FSM nodes with zero-length timed states) + 2 sharpness self-tests + batch trace validation of enter/leave records',
          'Guard.tla threads the _event_active flags through depth-first synchronous delivery; TLC checks Released, Depth1, RecursionIsFatal for all '
-         'graphs with 3 nodes and must find the flag-not-reset deviation; the graphs are built from real probe/Input/Counter/FSM/Repeat blocks with '
+         'graphs with 3 nodes (2 nodes with all four kinds in the quick tier) and must find the flag-not-reset and the zero-timer-window deviations; the graphs are built from real probe/Input/Counter/FSM/Repeat blocks with '
          'filters and EventCond; the enter/leave/fail records seen at SBlock.event(), the exception, Circuit.error and a lock probe of every block '
          'after each external event are validated by TLC.',
          TRUSTED, '6 C11'),
@@ -66,7 +66,7 @@ CHECKS.update({
          TRUSTED, '6 C15'),
 })
 CHECKS.update({
- 'C04': (MC, 'TLC model checking of FsmTimed.tla (implementation-shaped handles/_active_timer refine the functional Handle(); all 2-state machines on a tick grid) + 2 sharpness self-tests + TLC-exported schedules and random schedules replayed on real FSM/Timer/InputExp, batch trace validation',
+ 'C04': (MC, 'TLC model checking of FsmTimed.tla (implementation-shaped handles/_active_timer refine the functional Handle(); all 2-state machines on a tick grid, starts from saved states with the output events coming back) + 3 sharpness self-tests + TLC-exported schedules and random schedules replayed on real FSM/Timer/InputExp, batch trace validation',
          'FsmTimed.tla defines state and pending timer after every event (duration precedence event item > t_STATE > class default, <=0 immediately as a chained '
          'transition, INF never, none = error, rejected events keep the timer, accepted ones cancel it); MC_FsmTimed checks AtMostOnePending, Refines, NoStaleFire, '
          'ReportedIsPending, NothingAfterStop on the tick grid and must find the no-cancel and the fired-timer-kept deviations; environment histories exported '
